@@ -888,10 +888,136 @@ fn c09_macro_enum(tier: Tier, shard: u64, nshards: u64, f: &mut dyn FnMut(&[u64]
     rec(depth, 0, 0, 0, &mut seq, &mut counter, shard, nshards, f, &mut stop);
 }
 
+/// The same promise at connection capacity: bystanders keep the server full, one client goes
+/// away with requests in flight, newcomers knock, the answers come late. Whatever happens to the
+/// newcomers (C10 judges that), nobody receives anything foreign, the witness is served, and
+/// once the answers are in the slot is free again.
+fn c09_cap(input: &Input, obs: &mut Obs) -> Result<(), Fail> {
+    let mut s = Src::new(input.bytes());
+    world_variant(&mut s);
+    KILL_AFTER_START.with(|c| c.set(false));
+    let mut w = World::new(16, false, obs.want_render).map_err(|e| Fail::new("harness-world", e))?;
+    let wit = 0usize;
+    let budget = 64;
+    let mut trips_after = 0;
+    let spec = ReqSpec { method: 0, version: 1, body: 0, expect: false, extra_headers: 0, body_kind: 0 };
+    let r = (|| -> Result<(), (String, String)> {
+        w.connect(wit);
+        w.settle(200, false);
+        let total = s.range(8, 10); // connections open at once, the witness included
+        for c in 1..total {
+            w.connect(c);
+            if s.chance(128) {
+                w.settle(100, false);
+            }
+        }
+        w.settle(200, false);
+        witness_roundtrip(&mut w, wit, &mut s, budget)?;
+        let victim = 1 + s.below(total - 1);
+        let k = s.range(1, 3);
+        for _ in 0..k {
+            w.send_request(victim, &spec, &[]);
+        }
+        if s.chance(60) {
+            // a bystander has a request in flight too
+            let other = 1 + s.below(total - 1);
+            if other != victim {
+                w.send_request(other, &spec, &[]);
+            }
+        }
+        w.settle(200, false);
+        match s.below(3) {
+            0 => w.close_client(victim),
+            1 => w.shutdown_client(victim, libc::SHUT_RDWR),
+            _ => w.shutdown_client(victim, libc::SHUT_WR),
+        }
+        if s.chance(160) {
+            w.settle(200, false);
+        }
+        obs.label("client_left_with_requests_in_flight_at_capacity");
+        let mut next = total;
+        let newcomers = s.range(1, 3);
+        for _ in 0..newcomers {
+            w.connect(next);
+            if s.chance(128) {
+                w.send_request(next, &spec, &[]);
+            }
+            next += 1;
+            if s.chance(128) {
+                w.settle(200, false);
+            }
+        }
+        w.settle(200, false);
+        if total == 10 {
+            obs.label("newcomer_at_full_capacity");
+        }
+        witness_roundtrip(&mut w, wit, &mut s, budget)?;
+        trips_after += 1;
+        // late answers to the client that left, any order
+        while let Some(kk) = w.outstanding.iter().position(|o| o.c == victim) {
+            let size = resp_size(&mut s, false);
+            if !w.respond(kk, 200, size) {
+                return Err(("respond-err".into(), w.api_errors.last().cloned().unwrap_or_default()));
+            }
+            if s.chance(100) {
+                match w.poll() {
+                    PollRes::Err(e) => return Err((format!("requests-err:{}", e), format!("requests() returned Err({})", e))),
+                    _ => {}
+                }
+            }
+        }
+        w.settle(300, false);
+        // answer whatever the others have outstanding, then everybody reads
+        while let Some(kk) = w.outstanding.iter().position(|o| o.c != wit) {
+            if !w.respond(kk, 200, s.range(0, 200)) {
+                return Err(("respond-err".into(), w.api_errors.last().cloned().unwrap_or_default()));
+            }
+        }
+        w.settle(300, false);
+        for c in 0..next {
+            w.read_client(c, usize::MAX);
+            audit_client(&w, c)?;
+        }
+        witness_roundtrip(&mut w, wit, &mut s, budget)?;
+        trips_after += 1;
+        for (i, pr) in w.poll_results.iter().enumerate() {
+            if let PollRes::Err(e) = pr {
+                return Err((format!("requests-err:{}", e), format!("requests() call #{} returned Err({})", i + 1, e)));
+            }
+        }
+        // release: everybody but the witness leaves, everything is answered
+        for c in 1..next {
+            w.close_client(c);
+        }
+        w.settle(300, false);
+        while let Some(kk) = w.outstanding.iter().position(|o| o.c != wit) {
+            w.respond(kk, 200, 5);
+        }
+        w.answer_untagged();
+        w.settle(300, false);
+        witness_roundtrip(&mut w, wit, &mut s, budget)?;
+        let held = w.held();
+        if held != 1 {
+            return Err(("not-released".into(), format!("everybody but the witness has left and every yielded request is answered, yet the server holds {} connection descriptors besides listener and epoll", held)));
+        }
+        Ok(())
+    })();
+    obs.nontrivial = trips_after > 0;
+    obs.case_hash = Some(fnv64(input.bytes()));
+    if obs.want_render {
+        obs.render = w.render();
+    }
+    match r {
+        Ok(()) => Ok(()),
+        Err((sig, msg)) => Err(wfail("C09", &sig, msg, &w)),
+    }
+}
+
 fn c09_plan(tier: Tier) -> Vec<Job> {
     let q = tier == Tier::Quick;
     vec![
         Job { sub: "hist", kind: JobKind::Pbt { cases: if q { 40_000 } else { 800_000 }, max_len: 500 }, smallbuf: false },
+        Job { sub: "cap", kind: JobKind::Pbt { cases: if q { 6_000 } else { 120_000 }, max_len: 200 }, smallbuf: false },
         Job { sub: "macro", kind: JobKind::Enum { f: c09_macro_enum, bound: if q { "all applicable adversary macro-operation sequences of length <= 6 over {connect, 1 request, 2 pipelined, garbage, partial, shutdown(RD), shutdown(WR), close, answer (small), answer (300 KB), answer + flush}, a witness round trip after every operation" } else { "same, length <= 8" } }, smallbuf: false },
     ]
 }
@@ -899,7 +1025,7 @@ fn c09_plan(tier: Tier) -> Vec<Job> {
 pub fn c09() -> PropDef {
     PropDef {
         id: "C09",
-        subs: vec![("hist", c09_hist), ("macro", c09_macro)],
+        subs: vec![("hist", c09_hist), ("macro", c09_macro), ("cap", c09_cap)],
         plan: c09_plan,
         rule: "case = history with one witness client doing request/response round trips and 1..3 adversaries executing random sequences of {valid/invalid/partial/oversized sends, shutdown(RD), shutdown(WR), close, never read}, the application answering adversary requests arbitrarily late or never; skeletons for write-failure-with-requests-in-flight, hang-up-with-queued-output, garbage-then-close; oracle = requests() never returns Err, every witness round trip completes within 64 requests() calls, and once everything yielded is answered and every adversary is dead the server holds exactly one connection descriptor (/proc/self/fd); non-trivial = an adversary died or became unwritable with >=1 request in flight and the witness completed a round trip afterwards",
         assumptions: vec!["bounded liveness: 64 requests() calls per witness round trip", "a connection kept only for late responses may keep the epoll descriptor readable (not forbidden for misbehaving clients)"],
@@ -1666,7 +1792,7 @@ fn c07_macro_enum(tier: Tier, shard: u64, nshards: u64, f: &mut dyn FnMut(&[u64]
 fn c07_hist(input: &Input, obs: &mut Obs) -> Result<(), Fail> {
     let mut s = Src::new(input.bytes());
     world_variant(&mut s);
-    let skeleton = s.weighted(&[6, 6, 3]);
+    let skeleton = s.weighted(&[6, 6, 3, 1]);
     let nslots = if skeleton == 2 { 24 } else { 10 };
     let mut w = World::new(nslots, false, obs.want_render).map_err(|e| Fail::new("harness-world", e))?;
     let mut next_slot = 0usize;
@@ -1727,6 +1853,67 @@ fn c07_hist(input: &Input, obs: &mut Obs) -> Result<(), Fail> {
                 w.send_request(c2, &spec, &[]);
             }
             w.settle(200, false);
+            c07_audit_all(&w)?;
+        }
+        if skeleton == 3 {
+            // many requests of several clients outstanding at once, answered through one (or a
+            // few) large batches in which the clients' responses are interleaved
+            let k = s.range(2, 4);
+            let spec = ReqSpec { method: 0, version: 1, body: 0, expect: false, extra_headers: 0, body_kind: 0 };
+            for _ in 0..k {
+                w.connect(next_slot);
+                next_slot += 1;
+            }
+            w.settle(100, false);
+            let rounds = s.range(1, 3);
+            for _ in 0..rounds {
+                for c in 0..k {
+                    let m = s.range(5, 30);
+                    for _ in 0..m {
+                        w.send_request(c, &spec, &[]);
+                    }
+                    if s.chance(128) {
+                        w.settle(200, false);
+                    }
+                }
+                w.settle(400, false);
+            }
+            let total = w.outstanding.len();
+            if total > 32 {
+                obs.label("batch_of_more_than_32_interleaved_responses");
+            }
+            // the application answers in an order of its own: per client in request order or not
+            // (the order it supplies them in is the order each client must see)
+            let nb = s.range(1, 3);
+            for b in 0..nb {
+                let n = w.outstanding.len();
+                if n == 0 {
+                    break;
+                }
+                let take = if b + 1 == nb { n } else { s.range(1, n) };
+                // a permutation of the outstanding requests drawn from the case bytes
+                let mut ks: Vec<usize> = (0..n).collect();
+                match s.below(3) {
+                    0 => {}
+                    1 => {
+                        // round-robin over the clients
+                        ks.sort_by_key(|i| (w.outstanding[*i].j, w.outstanding[*i].c));
+                    }
+                    _ => {
+                        for i in (1..n).rev() {
+                            let j = s.below(i + 1);
+                            ks.swap(i, j);
+                        }
+                    }
+                }
+                ks.truncate(take);
+                w.respond_batch_in_order(&ks, 200, s.range(0, 60));
+                if s.chance(100) {
+                    w.settle(400, false);
+                }
+            }
+            obs.label("batched_respond");
+            w.settle(600, false);
             c07_audit_all(&w)?;
         }
         if skeleton == 2 {
